@@ -116,3 +116,21 @@ if __name__ == '__main__':
     elif c == 'drop-worktree':
         sh('git -C /repo worktree remove --force /tmp/seed_%s' % sys.argv[2])
         shutil.rmtree('/tmp/seed_%s' % sys.argv[2], ignore_errors=True)
+
+
+def cmd_revert(name, commit, pid):
+    """Seeded change that re-introduces a defect repaired by a fix: commit (reverse patch)."""
+    d = os.path.join(V, 'seeded', name)
+    os.makedirs(d, exist_ok=True)
+    r = sh('git -C /repo diff %s %s~1' % (commit, commit))
+    open(os.path.join(d, 'patch.diff'), 'w').write(r.stdout)
+    msg = sh('git -C /repo log --format=%%B -n1 %s' % commit).stdout
+    m = load_meta(name)
+    m.update({'property': pid, 'kind': 'revert of fix commit %s (the genuine defect returns)' % commit,
+              'needs_to_manifest': msg})
+    save_meta(name, m)
+    print('wrote', d)
+
+
+if __name__ == '__main__' and sys.argv[1] == 'revert':
+    cmd_revert(sys.argv[2], sys.argv[3], sys.argv[4])
